@@ -114,6 +114,36 @@ def run(ck, m):
     for c in body_walk(tc):
         if isinstance(c, ast.Call) and norm(c.func) == "self.clear_images":
             ck.ob("R2", enclosing_stmt(c), not any(k.arg == "now" for k in c.keywords), "deletions issued during a redraw must go through the buffered stream (not now=True) so that they precede the new content", stmt=f"_ti_clear_images: {short(c, 50)} buffered")
+    # a delete-all (`clear_images()` without widgets) runs at most once per redraw: each one advances the canvas disguise, and the disguise cycle is
+    # short - several of them can bring it back to where it was, so urwid would not re-emit the unchanged lines of the images just wiped
+    for c in body_walk(tc):
+        if isinstance(c, ast.Call) and norm(c.func) == "self.clear_images" and not c.args:
+            cn_ = g.nodes_of(enclosing_stmt(c))
+            again = any(x in cn_ for x in g.reachable(cn_, edge_ok=lambda s_, lab, d: not lab.startswith(("e:", "p:"))))
+            ck.ob("R2", enclosing_stmt(c), not again, f"the delete-all `{short(c, 40)}` lies on a cycle of the method's flow graph (a loop iterates past it): it can run more than once in one pass; every call advances the canvas disguise and a "
+                  "whole cycle of them leaves it unchanged, so the images wiped by the delete-all are not drawn again", stmt="_ti_clear_images: delete-all at most once per pass")
+    # views that span several shards leave a tail per column; the tails are aged before every view AND once more after the last view of a shard
+    # (a tail at the right edge is followed by no view: without the closing step it never expires and shifts every later view at its column)
+    if inner is not None and outer is not None:
+        closures_ = {n_.name: n_ for n_ in ast.walk(tc) if isinstance(n_, ast.FunctionDef) and n_ is not tc}
+        def _tail_step(st_):
+            for x in ast.walk(st_):
+                if isinstance(x, ast.While) and isinstance(x.test, ast.Compare) and len(x.test.ops) == 1 and isinstance(x.test.ops[0], ast.In):
+                    return True
+                if isinstance(x, ast.Call) and isinstance(x.func, ast.Name) and x.func.id in closures_ and any(
+                        isinstance(y, ast.While) and isinstance(y.test, ast.Compare) and len(y.test.ops) == 1 and isinstance(y.test.ops[0], ast.In) for y in ast.walk(closures_[x.func.id])):
+                    return True
+            return False
+        top_inner = inner
+        while top_inner._p is not outer:
+            top_inner = top_inner._p
+        before = any(_tail_step(s_) for s_ in inner.body)
+        idx_ = outer.body.index(top_inner)
+        after = any(_tail_step(s_) for s_ in outer.body[idx_ + 1:])
+        ck.expect(before, "_ti_clear_images: the step that ages the shard tails (`while col in shard_tails`) not recognised")
+        if before:
+            ck.ob("R2", outer, after, "the shard tails are aged before each view but not after the last view of a shard: a tail at the right edge of a shard never expires, and an image that later starts at "
+                  "its column is recorded one tail-width off (moves of that image then go unnoticed and its old placements are never deleted)", stmt="_ti_clear_images: shard tails aged after the last view of each shard")
     ci = m.get(W, "UrwidImageScreen.clear_images")
     for c in body_walk(ci):
         if isinstance(c, ast.Call) and norm(c.func) in ("self.write", "write_tty"):
